@@ -176,6 +176,8 @@ const TAGS: &[&str] = &[
     "<wxs module=\"w\">exports.f = function(x){ return x < 1 ? '<a' : '{{' + x }</wxs><text>{{ w.f(a) }}</text>",
     "<view wx:for=\"{{ list }}\" wx:key=\"k\" bind:tap=\"h1\" data-i=\"{{ index }}\" mark:k=\"{{ item.k }}\" class=\"c{{ index }}\">{{ item.v }}</view>",
     "<block wx:for=\"{{ list }}\"><block wx:if=\"{{ item.v }}\"><text>{{ item.v }}</text></block><block wx:else><text>none{{ index }}</text></block></block>",
+    // a data field that is called like a mangled name, next to a declared scope name
+    "<view slot:x>{{ _$0 }}-{{ x }}</view><text>{{ _$0 }}</text>",
     // text runs separated only by a node that is hoisted out of the content tree or dropped by
     // error recovery: they stay separate text nodes
     "x<wxs module=\"w\">exports.f = function(){ return 1 }</wxs>{{ a }}<template name=\"q\">Q</template>y{{ b }}",
@@ -204,6 +206,7 @@ fn tag_world(seed: u64, i: u64, t: usize) -> Value {
     for f in ["a", "b", "c", "d", "e"] {
         data[f] = val(&mut r);
     }
+    data["_$0"] = json!("D0");
     let mut schedule = vec![];
     let mut k = 10;
     for _ in 0..6 {
